@@ -4,6 +4,11 @@ from . import c07
 
 
 def run(ctx):
+    # the transcribed formulas equal the affine law as polynomial identities over Z (grid argument, TLC)
+    res = ctx.tlc("MC_ProjIdentities", "SPECIFICATION Spec\nINVARIANT IdentitiesHold\n", name="MC_ProjIdentities")
+    for v in res.violations:
+        ctx.violation("MC_ProjIdentities", "a transcribed projective / Jacobian formula is not the affine law "
+                      "(polynomial identity fails on the grid)", {"trace": v["trace"][-2:]})
     # full size: operations on rescaled projective / Jacobian representatives give the same abstract element
     grouptrace.run_traces(ctx, [("optimized_bn128", 1), ("optimized_bn128", 2), ("optimized_bls12_381", 1),
                                 ("optimized_bls12_381", 2), "secp"])
